@@ -284,7 +284,8 @@ theorem wtypeGME_else_range (c16 two q34 four a b c : K) (hn : a * a + b * b + c
   · rw [e]; rcases max3_mem (a * a) (b * b) (c * c) with h | h | h <;> rw [h] <;> linarith
   · rw [e]; linarith
 
-/-- **`get_element_probing_POVM('eq8', dim)`: all `2·dim` operators are Hermitian**, every `dim` -/
+/-- **`get_element_probing_POVM('eq8', dim)`: all `2·dim` operators are Hermitian**, every `dim` (thin: a case split on the definition
+of the table, true also for the totalised entries `m ≥ 2·dim`, `dim = 0`; nothing is claimed about informational completeness) -/
 theorem eprobe8_hermitian (dim m r c : ℕ) : eprobe8 dim m c r = conj (eprobe8 dim m r c) := by
   unfold eprobe8
   split_ifs <;> first | rfl | (exfalso; omega) | (simp_all; done)
@@ -294,7 +295,7 @@ so the `4·dim` rank-one projectors resolve `4·1`); exact Gaussian-integer comp
 theorem eprobe9_unitary_partial :
     ∀ b < 4, ∀ dim ∈ [4, 6, 8, 10, 12], eprobe9Unitary b dim = true := by decide +kernel
 
-/-- full statement (every even `dim ≥ 4`); open — tied for `dim ≤ 12`, probed beyond -/
+/-- full statement (every even `dim ≥ 4`); open — proved and tied for even `dim = 4, …, 12`, probed beyond -/
 def Eprobe9Unitary.Statement : Prop := ∀ b < 4, ∀ dim, 4 ≤ dim → dim % 2 = 0 → eprobe9Unitary b dim = true
 
 /-! ## closed-form values on the entangled branch, and the range guards of the model -/
